@@ -55,9 +55,10 @@ def verify(k, prop, cls=None, invariants=None, calls=None, hooks=None, extra_pre
         spec.closure_vals[name] = v
         args[name] = v
     for name, v in (ghost or {}).items(): st.ghost[name] = v
+    st.assume(*calls_mod().lattice_axioms())
     pre_st = st.copy()
     spec.pre_view = View(pre_st, args)
-    cl0 = k.clauses(args, pre_st, pre_st, P_NONE, True)
+    cl0 = k.clauses(args, pre_st, pre_st, k.result.fresh('noresult') if k.result is not None else P_NONE, True)
     for lab, f in cl0.requires: st.assume(f)
     if extra_pre:
         for f in extra_pre(View(pre_st, args)): st.assume(f)
@@ -96,7 +97,7 @@ def verify(k, prop, cls=None, invariants=None, calls=None, hooks=None, extra_pre
         else:
             exc = fl[1]
             info.exits.append((f'raise {exc.cls}', path))
-            cl = k.clauses(args, pre_st, s1, P_NONE, True)
+            cl = k.clauses(args, pre_st, s1, k.result.fresh('noresult') if k.result is not None else P_NONE, True)
             match = [rc for rc in cl.raises if exc.cls is not None and _exc_covered(exc.cls, rc.cls)]
             if not match:
                 ob(f'no_unexpected_raise:{exc.cls}', s1, BoolVal(False),
